@@ -2,6 +2,7 @@ package props
 
 import (
 	"bytes"
+	"encoding/gob"
 	"encoding/hex"
 	"fmt"
 	"math"
@@ -415,6 +416,39 @@ func c18builtinSeeds() ([]c18seed, error) {
 			nest = append(n2, t...)
 		}
 		seeds = append(seeds, c18seed{id: "x:deepnest", kind: c18kObj, data: nest, feats: []string{"deepnest"}})
+	}
+	// gob fallback values whose containers hold a nil element (gob accepts a nil interface inside a
+	// slice or map): as a single object, as a source-file name, as a constant
+	for _, gv := range []struct {
+		name string
+		v    ugo.Object
+	}{
+		{"array-nil", ugo.Array{nil}},
+		{"array-nil-mid", ugo.Array{ugo.Int(1), nil, ugo.String("x")}},
+		{"map-nil", ugo.Map{"a": nil}},
+		{"syncmap-nil", &ugo.SyncMap{Value: ugo.Map{"a": nil}}},
+		{"objptr-nil", &ugo.ObjectPtr{}},
+		{"error-nilcause", &ugo.Error{Name: "e", Message: "m"}},
+		{"nested-nil", ugo.Array{ugo.Map{"k": ugo.Array{nil}}}},
+	} {
+		var gb bytes.Buffer
+		gb.WriteByte(0xff)
+		v := gv.v
+		if err := gob.NewEncoder(&gb).Encode(&v); err != nil {
+			continue
+		}
+		enc := gb.Bytes()
+		seeds = append(seeds, c18seed{id: "x:gobnil:" + gv.name, kind: c18kObj, data: append([]byte(nil), enc...), feats: []string{"gobfallback", "gobnil"}})
+		sf := append(append([]byte(nil), enc...), c18vi(1)...)
+		sf = append(sf, c18vi(10)...)
+		sf = append(sf, c18vi(1)...)
+		sf = append(sf, c18vi(0)...)
+		seeds = append(seeds, c18seed{id: "x:gobnil-sfname:" + gv.name, kind: c18kSF, data: sf, feats: []string{"gobfallback", "gobnil"}})
+		// the same object as the only element of the constants field (field 3) and of an array constant
+		arr := append(c18vi(1), enc...)
+		cs := append([]byte{9}, c18vi(int64(len(arr)))...)
+		cs = append(cs, arr...)
+		seeds = append(seeds, c18seed{id: "x:gobnil-consts:" + gv.name, kind: c18kBC, data: append(append(c18header(2), 3), cs...), feats: []string{"gobfallback", "gobnil"}})
 	}
 	// gob fallback: a 5-byte input whose gob message header claims 10 MiB - 1
 	seeds = append(seeds, c18seed{id: "x:gob-claim", kind: c18kObj, data: []byte{0xff, 0xfd, 0x9f, 0xff, 0xff}, feats: []string{"gobfallback"}})
